@@ -63,6 +63,15 @@ func LoadVariant(base *World, overlay map[string][]byte) (*World, error) {
 			}
 		}
 	}
+	// every package of the loaded import graph, by path (for imports a variant adds)
+	// (only DIRECT imports of module packages: export data of indirect
+	// dependencies is partial and must not be used for new imports)
+	all := map[string]*packages.Package{}
+	for _, p := range base.Pkgs {
+		for path, q := range p.Imports {
+			all[path] = q
+		}
+	}
 	fresh := map[string]*packages.Package{}
 	var firstErr error
 	for _, p := range order {
@@ -103,6 +112,10 @@ func LoadVariant(base *World, overlay map[string][]byte) (*World, error) {
 				if path == "unsafe" {
 					return types.Unsafe, nil
 				}
+				if q, ok := all[path]; ok && q.Types != nil {
+					np.Imports[path] = q
+					return q.Types, nil
+				}
 				return nil, fmt.Errorf("import %q not available", path)
 			}),
 			Sizes: p.TypesSizes,
@@ -113,6 +126,12 @@ func LoadVariant(base *World, overlay map[string][]byte) (*World, error) {
 		}
 		tp, _ := cfg.Check(p.PkgPath, base.Fset, files, info)
 		if len(errs) > 0 {
+			for _, e := range errs {
+				if strings.Contains(e, "not available") || strings.Contains(e, "could not import") {
+					// the variant imports a package outside the loaded graph: full load
+					return Load(LoadOpts{Overlay: overlay, GOARCH: base.GOARCH})
+				}
+			}
 			if firstErr == nil {
 				firstErr = fmt.Errorf("load/type errors:\n  %s: %s", p.PkgPath, strings.Join(errs[:min(3, len(errs))], "; "))
 			}
